@@ -85,8 +85,13 @@ namespace rkcommon {
   /*! returns the extension */
   std::string FileName::ext() const
   {
+    size_t start = filename.find_last_of(path_sep);
+    if (start == std::string::npos)
+      start = 0;
+    else
+      start++;
     size_t pos = filename.find_last_of('.');
-    if (pos == std::string::npos)
+    if (pos == std::string::npos || pos < start)
       return "";
     return filename.substr(pos + 1);
   }
@@ -94,8 +99,13 @@ namespace rkcommon {
   /*! returns the extension */
   FileName FileName::dropExt() const
   {
+    size_t start = filename.find_last_of(path_sep);
+    if (start == std::string::npos)
+      start = 0;
+    else
+      start++;
     size_t pos = filename.find_last_of('.');
-    if (pos == std::string::npos)
+    if (pos == std::string::npos || pos < start)
       return filename;
     return filename.substr(0, pos);
   }
